@@ -375,3 +375,346 @@ pub fn c01(thorough: bool, replay: Option<String>) -> i32 {
     rep.add_sub("KERNEL", &format!("every expression of depth <= {} over A, B, a literal, a quoted list, f r c + = list if (with a raise in the untaken branch), placed in {} x 6 sigils", if thorough { 2 } else { 1 }, if thorough { "main / defun body / inline body" } else { "main" }), n, true, capped, st);
     rep.finish()
 }
+
+// ---------------------------------------------------------------------------
+// C02 — optimisation switches and optimising dialects never change results
+
+const CONFIGS: [(bool, bool, bool); 8] = [(false, false, false), (true, false, false), (false, true, false), (true, true, false), (false, false, true), (true, false, true), (false, true, true), (true, true, true)];
+
+fn cfg_name(c: &(bool, bool, bool)) -> String {
+    format!("opt{}fe{}post{}", c.0 as u8, c.1 as u8, c.2 as u8)
+}
+
+/// value-semantics group of a sigil
+fn group_of(sigil: &str) -> u8 {
+    if dialect_of(sigil).int_fix {
+        1
+    } else {
+        0
+    }
+}
+
+fn has_zero_led_literal(text: &str) -> bool {
+    text.contains("0x00")
+}
+
+#[derive(Clone)]
+enum Build {
+    Rejected(String),
+    Panic(String),
+    Code(T),
+}
+
+fn build_all(text_for: &dyn Fn(&str) -> String, sigils: &[&'static str]) -> Vec<(&'static str, (bool, bool, bool), Build)> {
+    let mut out = vec![];
+    for s in sigils {
+        let text = text_for(s);
+        for c in CONFIGS.iter() {
+            let o = ModernOpts { optimize: c.0, frontend_opt: c.1, post_opt: c.2, ..Default::default() };
+            let b = match modern_compile(&text, dialect_of(s), &o) {
+                Ok(c) => Build::Code(c.code),
+                Err(e) if e.is_panic() => Build::Panic(e.msg()),
+                Err(e) => Build::Rejected(e.msg()),
+            };
+            out.push((*s, *c, b));
+        }
+    }
+    out
+}
+
+fn check_c02_generated(st: &mut Stats, case0: &Case, sub: &str) {
+    let sigils: Vec<&'static str> = SIGILS.to_vec();
+    let prog0 = case0.prog.clone();
+    let text_for = |s: &str| {
+        let mut p = prog0.clone();
+        p.sigil = Some(SIGILS.iter().copied().find(|x| *x == s).unwrap());
+        p.text()
+    };
+    let builds = build_all(&text_for, &sigils);
+    let refs: Vec<Result<T, NoValue>> = case0.args.iter().map(|a| reference(&case0.prog, a)).collect();
+    compare_builds(st, &builds, &case0.args, Some(&refs), &text_for, Some(case0), sub);
+}
+
+fn compare_builds(
+    st: &mut Stats,
+    builds: &[(&'static str, (bool, bool, bool), Build)],
+    args: &[T],
+    refs: Option<&[Result<T, NoValue>]>,
+    text_for: &dyn Fn(&str) -> String,
+    case: Option<&Case>,
+    sub: &str,
+) {
+    for (s, c, b) in builds {
+        st.eval();
+        match b {
+            Build::Panic(p) => {
+                st.outcome("compile-PANIC");
+                st.violation(&format!("compile-panic/{}/{}", short_sigil(s), cfg_name(c)), format!("{} [{} {}]: {}", text_for(s), short_sigil(s), cfg_name(c), p), text_for(s).len(), json!({"kind": "c02", "text": text_for(s), "sigil": s}));
+            }
+            Build::Rejected(_) => st.outcome(&format!("rejected/{}", short_sigil(s))),
+            Build::Code(_) => st.outcome(&format!("accepted/{}", short_sigil(s))),
+        }
+    }
+    for (ai, a) in args.iter().enumerate() {
+        // outcome of every build on this valuation
+        let outs: Vec<Option<Out>> = builds.iter().map(|(_, _, b)| if let Build::Code(c) = b { Some(consensus(c, a)) } else { None }).collect();
+        let zero_lit = has_zero_led_literal(&text_for(builds[0].0));
+        let mk_replay = |s: &str, c: &(bool, bool, bool)| json!({"kind": "c02", "text": text_for(s), "sigil": s, "config": cfg_name(c), "args": a.hex()});
+        let sig_for = |kind: &str, s: &str, c: &(bool, bool, bool), got: Option<&Out>, code: Option<&T>| -> String {
+            // configuration-borne root causes first
+            let build = builds.iter().find(|(bs, bc, _)| *bs == s && bc == c).map(|x| &x.2);
+            let rejected_msg = match build {
+                Some(Build::Rejected(m)) => m.clone(),
+                _ => String::new(),
+            };
+            if s == "*strict-cl-21*" && (c.0 || c.2) && (rejected_msg.contains(" in 64") || rejected_msg.starts_with("*macros*") || code.map(contains_quoted_64).unwrap_or(false)) {
+                return "strict-cl21-optimised/@-becomes-(q . 64)".to_string();
+            }
+            if c.1 {
+                let names = case.map(|cs| all_names(&cs.prog)).unwrap_or_default();
+                let leaked_value = matches!(got, Some(Out::Val(v)) if leaks_a_name(v, &names));
+                let leaked_code = code.map(|c| leaks_a_name(c, &names)).unwrap_or(false);
+                if leaked_value || leaked_code {
+                    return "frontend-optimiser/variable-replaced-by-its-name".to_string();
+                }
+            }
+            match case {
+                Some(cs) => {
+                    let mut cs2 = cs.clone();
+                    cs2.prog.sigil = SIGILS.iter().copied().find(|x| *x == s);
+                    let optname = if c.0 || c.2 { "optimised" } else { "run" };
+                    let base = c01_sig(&cs2, s, optname, "wrong-result", got, code);
+                    if base.starts_with("wrong-result/") {
+                        format!("{}/{}", kind, base.trim_start_matches("wrong-result/").rsplitn(2, '/').last().unwrap_or("").to_string() + "/" + &cfg_name(c))
+                    } else {
+                        base
+                    }
+                }
+                None => format!("{}/shipped/{}/{}", kind, short_sigil(s), cfg_name(c)),
+            }
+        };
+        // (b) every build equals the reference value
+        if let Some(Ok(v)) = refs.map(|r| &r[ai]) {
+            for ((s, c, b), o) in builds.iter().zip(outs.iter()) {
+                if let (Build::Code(code), Some(o)) = (b, o) {
+                    match o {
+                        Out::Val(g) if g == v => {
+                            st.count("agrees-with-reference", 1);
+                            st.nontrivial(&(text_for(s), cfg_name(c), ai));
+                        }
+                        Out::Limit => {}
+                        other => {
+                            st.outcome("DISAGREES-WITH-REFERENCE");
+                            st.violation(&sig_for("vs-reference", s, c, Some(other), Some(code)), format!("{} [{} {}] on {}: source means {}, build gives {}", text_for(s), short_sigil(s), cfg_name(c), a.short(), v.short(), other.short()), text_for(s).len(), mk_replay(s, c));
+                        }
+                    }
+                }
+            }
+        }
+        // (a) any two value-returning builds of compatible groups agree
+        let mut firsts: Vec<(usize, &T)> = vec![];
+        for (i, o) in outs.iter().enumerate() {
+            if let Some(Out::Val(v)) = o {
+                firsts.push((i, v));
+            }
+        }
+        if firsts.len() >= 2 {
+            st.count("valuations-with-two-or-more-value-returning-builds", 1);
+            for w in 1..firsts.len() {
+                let (i0, v0) = firsts[0];
+                let (i1, v1) = firsts[w];
+                let (s0, s1) = (builds[i0].0, builds[i1].0);
+                let comparable = group_of(s0) == group_of(s1) || !zero_lit;
+                if comparable && v0 != v1 {
+                    // attribute to whichever differs from the reference, if known; otherwise to the later build
+                    let blame = match refs.map(|r| &r[ai]) {
+                        Some(Ok(v)) if v == v1 => i0,
+                        _ => i1,
+                    };
+                    if refs.map(|r| r[ai].is_ok()).unwrap_or(false) {
+                        continue; // already reported under (b)
+                    }
+                    let (s, c, b) = &builds[blame];
+                    let code = if let Build::Code(c) = b { Some(c) } else { None };
+                    st.outcome("BUILDS-DISAGREE");
+                    st.violation(
+                        &sig_for("builds-disagree", s, c, outs[blame].as_ref(), code),
+                        format!("{} on {}: [{} {}] gives {}, [{} {}] gives {}", text_for(s), a.short(), short_sigil(s0), cfg_name(&builds[i0].1), v0.short(), short_sigil(s1), cfg_name(&builds[i1].1), v1.short()),
+                        text_for(s).len(),
+                        mk_replay(s, c),
+                    );
+                }
+            }
+        }
+        // (c) monotonicity within a dialect: the unoptimised build returns v => every other build of that dialect compiles and returns v
+        let mut k = 0;
+        while k < builds.len() {
+            let s = builds[k].0;
+            // the property's monotonicity clause is about -O and the post-optimiser: builds are compared
+            // with the unoptimised build that has the SAME frontend_opt setting
+            for base_i in [k, k + 2] {
+              let base = &outs[base_i];
+              if let Some(Out::Val(v)) = base {
+                for j in k..k + CONFIGS.len() {
+                    if j == base_i || builds[j].1 .1 != builds[base_i].1 .1 {
+                        continue;
+                    }
+                    let ok = match (&builds[j].2, &outs[j]) {
+                        (Build::Code(_), Some(Out::Val(g))) => g == v,
+                        (Build::Code(_), Some(Out::Limit)) => true,
+                        _ => false,
+                    };
+                    if ok {
+                        st.count("monotone-ok", 1);
+                        st.nontrivial(&(text_for(s), "mono", j, ai));
+                    } else {
+                        let (s, c, b) = &builds[j];
+                        let code = if let Build::Code(c) = b { Some(c) } else { None };
+                        let how = match (b, &outs[j]) {
+                            (Build::Rejected(m), _) => format!("does not compile: {}", m),
+                            (Build::Panic(m), _) => format!("panics: {}", m),
+                            (_, Some(o)) => format!("gives {}", o.short()),
+                            _ => String::new(),
+                        };
+                        st.outcome("OPTIMISATION-BREAKS");
+                        st.violation(&sig_for("optimisation-breaks", s, c, outs[j].as_ref(), code), format!("{} on {}: unoptimised build gives {}, [{} {}] {}", text_for(s), a.short(), v.short(), short_sigil(s), cfg_name(c), how), text_for(s).len(), mk_replay(s, c));
+                    }
+                }
+              }
+            }
+            k += CONFIGS.len();
+        }
+        if ai == 0 {
+            if let Some(Some(Out::Val(v))) = outs.first() {
+                st.sample(json!({"sub": sub, "program": text_for(builds[0].0), "args": a.short(), "value_in_all_builds": v.short(), "builds": builds.len()}));
+            }
+        }
+    }
+}
+
+fn valuations_for(p: &Pat, limit: usize) -> Vec<T> {
+    let mut names = vec![];
+    p.names(&mut names);
+    let alpha = [T::nil(), T::int(1), T::list(&[T::int(2), T::int(3)]), T::A((1..=32u8).collect()), T::int(100), T::list(&[T::list(&[T::int(51), T::A((1..=32u8).collect()), T::int(7)])])];
+    fn fill(p: &Pat, pick: &dyn Fn(usize) -> T, ctr: &mut usize) -> T {
+        match p {
+            Pat::Name(_) => {
+                *ctr += 1;
+                pick(*ctr - 1)
+            }
+            Pat::Nil => T::nil(),
+            Pat::Cons(a, b) => {
+                let x = fill(a, pick, ctr);
+                let y = fill(b, pick, ctr);
+                T::p(x, y)
+            }
+            Pat::At(_, s) => fill(s, pick, ctr),
+        }
+    }
+    let k = names.len().max(1);
+    let mut out = vec![];
+    let total = (alpha.len() as u64).pow(k.min(3) as u32);
+    for i in 0..total.min(limit as u64) {
+        let pick = |j: usize| {
+            let d = if j < 3 { (i / (alpha.len() as u64).pow(j as u32)) % alpha.len() as u64 } else { (i + j as u64) % alpha.len() as u64 };
+            alpha[d as usize].clone()
+        };
+        let mut c = 0;
+        out.push(fill(p, &pick, &mut c));
+    }
+    out
+}
+
+pub fn c02(thorough: bool, replay: Option<String>) -> i32 {
+    let mut rep = Report::new("C02", if thorough { "thorough" } else { "quick" }, "exploration");
+    rep.rule = "every program of the stated sets is compiled for every sigil under the FULL configuration matrix {optimize off/on} x {frontend_opt off/on} x {classic post-optimiser off/on} (every option set an entry point can derive, and the ones it cannot) and every build is run by clvmr on the valuations. \
+        Oracles: (b) every build returns the reference value whenever the reference interpreter returns one; (a) any two builds that both return a value return the same value (across the cl21-group / cl23.1-group boundary only for programs without zero-led literals); (c) if the unoptimised build of a dialect returns v, every other build of that dialect compiles and returns v. \
+        non-trivial = distinct (program, configuration, valuation) triples that returned the agreed value"
+        .to_string();
+    rep.assumptions = vec!["reference interpreter and clvmr as in C01".to_string(), "shipped programs are given argument trees enumerated from their parameter shape over a 6-value alphabet; pairs on which no build returns a value make no claim (counted)".to_string()];
+    if replay.is_some() {
+        eprintln!("C02 replay: re-run the check; replay files carry the program text, sigil, configuration and arguments");
+        let st = Stats::new();
+        rep.add_sub("replay", "not supported in-process", 0, false, false, st);
+        return rep.finish();
+    }
+    let cap = Some(Duration::from_secs(if thorough { 3000 } else { 50 }));
+    // generated programs: a slice of C01's spaces
+    let mut cases: Vec<Case> = vec![];
+    for c in scope_chains(if thorough { 2 } else { 1 }) {
+        for p in [NamePolicy::Fresh, NamePolicy::SameEverywhere] {
+            if !thorough && p != NamePolicy::Fresh {
+                continue;
+            }
+            cases.push(scope_case(&c, p, None));
+        }
+    }
+    let flat: Vec<usize> = if thorough { vec![1, 2, 3, 8, 15, 16, 17, 32, 40] } else { vec![2, 16, 17] };
+    for p in param_patterns(if thorough { 3 } else { 2 }, &flat) {
+        for kind in PARAM_KINDS {
+            if let Some(c) = params_case(&p, kind, None) {
+                cases.push(c);
+            }
+        }
+    }
+    let ol = oplit_cases(None);
+    for (i, c) in ol.into_iter().enumerate() {
+        if thorough || i % 6 == 0 {
+            cases.push(c);
+        }
+    }
+    cases.extend(calls_cases(None, if thorough { 3 } else { 2 }));
+    for e in kernel_exprs(1) {
+        cases.push(kernel_case(&e, 0, None));
+        if thorough {
+            cases.push(kernel_case(&e, 1, None));
+            cases.push(kernel_case(&e, 2, None));
+        }
+    }
+    let n = cases.len() as u64;
+    let (st, capped) = par_range(n, 4, cap, || (), |_, st, i| check_c02_generated(st, &cases[i as usize], "generated"));
+    rep.add_sub("generated", &format!("{} generated programs (binder chains, parameter shapes, operators/literals, call graphs, kernels: a slice of C01's sub-spaces) x 6 sigils x 8 configurations x 2-3 valuations", n), n, true, capped, st);
+
+    // shipped programs
+    let shipped = crate::crashmc::shipped_seeds(if thorough { 20000 } else { 2500 }, if thorough { 400 } else { 40 });
+    let mut sp: Vec<(String, String, Pat)> = vec![];
+    for (path, text) in shipped {
+        if let Some(p) = crate::parsemc::mod_params(text.as_bytes()) {
+            sp.push((path, text, p));
+        }
+    }
+    let n = sp.len() as u64;
+    let (st, capped) = par_range(n, 1, cap, || (), |_, st, i| {
+        let (path, text, pat) = &sp[i as usize];
+        // the program's own sigil decides its dialect; all 8 configurations of that dialect are built
+        let d = match detect_dialect(text) {
+            Some(d) if d.stepping.is_some() => d,
+            _ => {
+                st.outcome("classic-or-unreadable(skipped)");
+                return;
+            }
+        };
+        let sig: &'static str = match SIGILS.iter().find(|s| {
+            let x = dialect_of(s);
+            x.stepping == d.stepping && x.strict == d.strict && x.int_fix == d.int_fix
+        }) {
+            Some(s) => s,
+            None => return,
+        };
+        let mut builds = vec![];
+        for c in CONFIGS.iter() {
+            let o = ModernOpts { optimize: c.0, frontend_opt: c.1, post_opt: c.2, search: vec!["/repo/resources/tests".into(), "/repo/resources/tests/bridge-includes".into(), "/repo/resources/tests/strict/includes".into(), "/repo/resources/tests/lib".into(), std::path::Path::new(path).parent().map(|p| p.to_string_lossy().to_string()).unwrap_or_default()], filename: path.clone() };
+            let b = match modern_compile(text, d.clone(), &o) {
+                Ok(c) => Build::Code(c.code),
+                Err(e) if e.is_panic() => Build::Panic(e.msg()),
+                Err(e) => Build::Rejected(e.msg()),
+            };
+            builds.push((sig, *c, b));
+        }
+        let args = valuations_for(pat, if thorough { 60 } else { 12 });
+        let t2 = text.clone();
+        compare_builds(st, &builds, &args, None, &move |_s| t2.clone(), None, path);
+    });
+    rep.add_sub("shipped", &format!("{} modern programs under resources/tests with a readable (mod PARAMS ...) head, each in its own dialect x 8 configurations x argument trees from its parameter shape", n), n, true, capped, st);
+    rep.finish()
+}
